@@ -68,7 +68,7 @@ MEDDLY::domain* MEDDLY::domain::create(input &s)
     for (unsigned i=N; i; i--) {
         s.stripWS();
         long bound = s.get_integer();
-        vars[N-i+1] = new variable(bound, "");
+        vars[i] = new variable(bound, "");
     }
     s.stripWS();
     s.consumeKeyword("mod");
